@@ -649,6 +649,14 @@ impl GrammarBuilder {
                 {
                     assign.symbol.index = Some(match symbol {
                         GrammarSymbol::Name(name) => {
+                            if name.as_ref() == "AUG" || name.as_ref() == "AUGL" {
+                                // Augmented symbols are used internally by the table builder.
+                                err!(
+                                    format!("'{}' is a reserved name.", name),
+                                    Some(self.file.clone()),
+                                    name.span
+                                )?
+                            }
                             if name.as_ref() == "STOP" {
                                 // STOP is matched implicitly at the end of the input.
                                 err!(
